@@ -63,7 +63,10 @@ pub fn check_accuracy(t: &dyn Td, sf: Sf, delta: f64, fam: Family, sorted: &[f64
         return Ok(()); // vacuous
     }
     let (lo, hi) = (sorted[0], sorted[n - 1]);
-    let tau = 1e-9 * (hi - lo).max(lo.abs().max(hi.abs()) * 1e-6).max(f64::MIN_POSITIVE);
+    // value tolerance: 1e-9 of the range, and never below a few ulps of the values' magnitude
+    // (a fused centroid stores sum and count; its mean carries the accumulation error of the sum,
+    // ~ sqrt(n) ulps of the values' magnitude, which matters for tied values far from zero)
+    let tau = (1e-9 * (hi - lo)).max(16.0 * f64::EPSILON * lo.abs().max(hi.abs()) * nf.sqrt()).max(f64::MIN_POSITIVE);
     if let Some((is_cdf, arg, val)) = first_read {
         *evals += 1;
         let err = if is_cdf {
@@ -153,7 +156,10 @@ fn item(ctx: &Ctx, i: usize, rep: &mut Report) {
         Tier::Quick => if i % 5 == 0 { 100_000 } else { 10_000 },
         Tier::Thorough => if i % 10 == 0 { 1_000_000 } else { 100_000 },
     };
-    let label = format!("tdigest({},delta={},backlog={},{})", sf.name(), delta, backlog, fam.name());
+    // rank accuracy does not depend on the unit or origin of the data: epoch milliseconds (1.7e12 +
+    // x), joules (x * 1e-19), ...
+    let (scale, offset) = *r.pick(&[(1.0, 0.0), (1.0, 0.0), (1e-19, 0.0), (1e9, 0.0), (1e4, 1.7e12), (1e-3, -30.0), (1e12, 0.0)]);
+    let label = format!("tdigest({},delta={},backlog={},{},x*{:e}+{:e})", sf.name(), delta, backlog, fam.name(), scale, offset);
     rep.config(&label);
     let mut t = make_td(sf, delta, backlog);
     let mut vals: Vec<f64> = Vec::with_capacity(n_max);
@@ -177,7 +183,7 @@ fn item(ctx: &Ctx, i: usize, rep: &mut Report) {
     let mut ci = 0;
     let res = guarded(|| -> Result<(), (String, String)> {
         for k in 0..n_max {
-            let x = fam.gen(&mut r, k, n_max);
+            let x = fam.gen(&mut r, k, n_max) * scale + offset;
             t.insert(x);
             vals.push(x);
             if p_read > 0.0 && r.chance(p_read) {
@@ -225,7 +231,7 @@ fn item(ctx: &Ctx, i: usize, rep: &mut Report) {
         rep.violation(
             format!("{}/{}", sig, sf.name()),
             format!("{} after {} inserts: {}", label, vals.len(), what),
-            json!({"scale": sf, "delta": delta, "backlog": backlog, "family": fam.name(), "n": vals.len(), "item": i, "p_read": p_read, "centroids": t.centroids().iter().take(40).collect::<Vec<_>>()}),
+            json!({"scale": sf, "delta": delta, "backlog": backlog, "family": fam.name(), "value_scale": scale, "value_offset": offset, "n": vals.len(), "item": i, "p_read": p_read, "centroids": t.centroids().iter().take(40).collect::<Vec<_>>()}),
         );
         return;
     }
